@@ -41,9 +41,11 @@ THEOREM_CLASSES = {
     "C10_explicit_ops_frame": "corollary", "C10_realloc_grow_safe": "corollary",
     "C10_leaf_flag_sound": "main", "C10_reachable_kept": "main", "C10_no_abort": "main",
     "C10_repaired_code_facts": "tripwire", "C10_every_op_safe": "main",
-    "C10_stacktop_discipline": "main", "C10_main_stack_kept": "main", "C10_coroutine_stack_kept": "corollary",
+    "C10_stacktop_discipline": "main", "C10_main_stack_kept": "corollary", "C10_coroutine_stack_kept": "corollary",
+    "C10_stacktop_reset_needed": "refutation",
 }
 UNPROVED = [
+    "C10_stacktop_discipline is mostly definitional (the one real path is the refused resume from main, which rests on the scraped placement of gc:setstacktop(0): companion C10_stacktop_reset_needed); C10_main_stack_kept and C10_coroutine_stack_kept are corollaries of C10_every_op_safe whose stack/register words and 'the coroutine's frames are words of its registered item' are premises supplied by the history; CORO_REGISTERED_WITH_CORO_SIZE is a tripwire no theorem depends on",
     "stack clause: the collector-side logic is modelled (coq/C10/CoStack.v: gc.stacktop bracket of coroutine.resume incl. refused resumes, main stack frames, coroutine stacks as registered items) and proved (C10_stacktop_discipline, C10_main_stack_kept, C10_coroutine_stack_kept); NOT modelled: that the words of the real machine stack / registers (setjmp, frame address) and of the coroutine's mmap'd block are exactly what the history supplies, and the context switch itself; the CoStack layer is not run against the implementation command by command - its tie is the scraped order of gc:setstacktop(0) vs the error return, and the coroutine stream (harness/C10/gccodriver.nelua: blocks held only in coroutine frames / in deep main frames, refused resumes from main followed by cycles), which is testing",
     "that the pointer being (re)registered sits in a scanned slot while GC:register/GC:reregister may run a cycle: assumed by the model (ptr :: stk), restated as C10_alloc_fresh_survives_if_scanned, observed on the real collector by every history in the 'auto*' modes",
     "a realloc that MOVES its block and triggers a cycle: no frame theorem of its own (C10_every_op_safe excludes it; C10_sweep_safe applies to the intermediate state, which satisfies the invariant)",
@@ -69,9 +71,34 @@ KEY_FINROOT = "regression[fe9bb7e]:history:N(32,fin);R(2000,moved) -> abort 'att
 
 
 # ---------------------------------------------------------------------------- gen
+def strip_nelua_comments(src):
+    """Remove --[[ ]] / --[=[ ]=] block comments and -- line comments (string literals are respected
+    for the line comments); preprocessor lines (## ...) are code and stay."""
+    src = re.sub(r"--\[(=*)\[.*?\]\1\]", "", src, flags=re.S)
+    out = []
+    for line in src.split("\n"):
+        i, n, q = 0, len(line), None
+        while i < n:
+            ch = line[i]
+            if q:
+                if ch == "\\":
+                    i += 1
+                elif ch == q:
+                    q = None
+            elif ch in "'\"":
+                q = ch
+            elif ch == "-" and line.startswith("--", i):
+                line = line[:i]
+                break
+            i += 1
+        out.append(line.rstrip())
+    return "\n".join(out)
+
+
 def gen(ctx):
-    gcsrc = vlib.repo_read("lib/allocators/gc.nelua")
-    alsrc = vlib.repo_read("lib/allocators/allocator.nelua")
+    # a commented-out line must never satisfy a scrape
+    gcsrc = strip_nelua_comments(vlib.repo_read("lib/allocators/gc.nelua"))
+    alsrc = strip_nelua_comments(vlib.repo_read("lib/allocators/allocator.nelua"))
     out = {}
 
     def shift(src, name, what):
@@ -122,7 +149,7 @@ def gen(ctx):
     else:
         raise RuntimeError("cannot recognise the sweep (loop) of GC:destroy")
     # coroutine.resume: the main stack top saved for the collector is reset BEFORE the error return
-    cosrc = vlib.repo_read("lib/coroutine.nelua")
+    cosrc = strip_nelua_comments(vlib.repo_read("lib/coroutine.nelua"))
     mr = re.search(r"function coroutine\.resume\(.*?\n(.*?)\nend\n", cosrc, re.S)
     if not mr:
         raise RuntimeError("cannot find coroutine.resume")
